@@ -34,7 +34,7 @@ type c13L struct {
 
 func init() {
 	steps := []string{"sessionless", "discovery", "open", "rakp1", "rakp3", "insession", "close", "sdr-info", "sdr-reserve", "sdr-get1", "sdr-get2", "sdr-get3", "sdr-get4", "sdr-final", "wrongpw", "close2", "after-expired", "suites-idx1", "suites-idx2", "sensor-read", "dcmi-enum", "suites-again", "after-long-ctx"}
-	faults := []string{"blackhole", "late", "garbage", "tempcode", "trunc", "ffrun", "drop-once", "repo-modified", "runts", "close-inflight"}
+	faults := []string{"blackhole", "late", "garbage", "tempcode", "trunc", "ffrun", "drop-once", "repo-modified", "runts", "close-inflight", "duplicate"}
 	register(&Check{
 		ID:      "C13",
 		Level:   "fault_enumeration",
@@ -290,6 +290,13 @@ func c13UDP(run *ev.Run, p c13P, cs ev.Case) (string, func()) {
 			return [][]byte{reply}, 0
 		case "blackhole":
 			return nil, 0
+		case "duplicate":
+			// the network delivers every reply twice: each call finds its predecessor's second copy first
+			if reply != nil {
+				validSent++
+				return [][]byte{reply, reply}, 0
+			}
+			return nil, 0
 		case "late":
 			if reply != nil {
 				validSent++
@@ -488,7 +495,11 @@ func c13UDP(run *ev.Run, p c13P, cs ev.Case) (string, func()) {
 		msg := fmt.Sprintf("%s: returned %v after the deadline in three runs out of three (allowance 250ms; canary lateness %v; err=%v)", desc, overshoot, late, callErr)
 		return "overshoot", func() { run.Violation(key, msg, cs, nil) }
 	}
-	if callErr == nil && validSent == validBefore && p.Fault != "late" {
+	// (with duplicated replies the second copy of an earlier answer to the same command is received -
+	// authentic and matching - during a later call: which call a delivery belongs to cannot be told from
+	// the sending side, so that fault is left out here; the stale same-command reply itself is the open
+	// finding recorded under C11)
+	if callErr == nil && validSent == validBefore && p.Fault != "late" && p.Fault != "duplicate" {
 		run.Violation("C13:success-without-valid-response:"+p.Step, fmt.Sprintf("%s: call reported success although the BMC sent no valid response while it ran (datagrams received by the BMC: %d)", desc, srv.Received.Load()), cs, nil)
 		return "violated", nil
 	}
@@ -496,7 +507,7 @@ func c13UDP(run *ev.Run, p c13P, cs ev.Case) (string, func()) {
 		run.Violation("C13:success-without-valid-response:"+p.Step, fmt.Sprintf("%s: retrieval reported success with %d of the 3 records although a reply was lost on the way", desc, sdrCount), cs, nil)
 		return "violated", nil
 	}
-	if callErr == nil && (p.Deadline <= 0 || (faultOn && p.Fault != "late" && p.Fault != "drop-once" && p.Fault != "repo-modified")) {
+	if callErr == nil && (p.Deadline <= 0 || (faultOn && p.Fault != "late" && p.Fault != "drop-once" && p.Fault != "repo-modified" && p.Fault != "duplicate")) {
 		run.Violation("C13:success-without-valid-response:"+p.Step, fmt.Sprintf("%s: call reported success although no valid response could have been obtained", desc), cs, nil)
 		return "violated", nil
 	}
